@@ -25,7 +25,8 @@ TNM == Ev("NM") /\ LET ev == Log[l] IN Judge(
 TMin1D == Ev("Min1D") /\ LET ev == Log[l] IN Judge(
             /\ ev.fin /\ ev.notworse                        \* not worse than the two initial abscissae, whatever the objective
             /\ ev.maxeq                                     \* Find_Maximum of -f is Find_Minimum of f
-            /\ (ev.cls = "unimodal" => ev.dq >= 0 /\ ev.dq <= 1))  \* within the distance implied by the tolerance (and the flatness of f)
+            /\ (ev.cls = "unimodal" => ev.dq >= 0 /\ ev.dq <= 1)   \* within the distance implied by the tolerance (and the flatness of f)
+            /\ (CHECK_A => ev.bestok /\ ev.nev <= 250))            \* A (Brent.tla): the point returned is the best one evaluated; evaluations are bounded
 TMinND == Ev("MinND") /\ LET ev == Log[l] IN Judge(
             /\ ev.returned                                  \* a meaningful request returns (NMAX exceeded exits)
             /\ ev.notworse /\ ev.stateok
